@@ -134,3 +134,14 @@ Proof.
   exact (edwards_assoc F zero one add mul sub opp div inv Fth d x1 y1 x2 y2 x3 y3 H1 H2 H3).
 Qed.
 Print Assumptions C01_edwards_assoc.
+
+(* the endomorphism-split path of bn254 G1 (lattice.go decompose/round, as coded):
+   for EVERY scalar the two sub-scalars are positive, shorter than 130 bits and
+   recombine to the scalar; Multi() may therefore read their bits *)
+From Kyber Require Import Group.GLV.
+Theorem C01_glv_split_path : forall k, 0 <= k < bn254_r ->
+  let '(k1, k2) := glv_decompose k in
+  0 < k1 < 2 ^ 130 /\ 0 < k2 < 2 ^ 130 /\
+  (k1 + k2 * glv_lambda) mod bn254_r = k mod bn254_r.
+Proof. exact glv_decompose_correct. Qed.
+Print Assumptions C01_glv_split_path.
